@@ -557,8 +557,11 @@ Proof.
 Qed.
 
 (* ---- the number of frames of a whole request with speculative fibers ---------------------------- *)
+Lemma list_sum_const {A} (c : nat) (l : list A) : list_sum (map (fun _ => c) l) = (List.length l * c)%nat.
+Proof. induction l as [|a l IH]; cbn; [reflexivity|]. rewrite IH. lia. Qed.
+
 Lemma list_sum_const0 {A} (l : list A) : list_sum (map (fun _ => 0%nat) l) = 0%nat.
-Proof. induction l; cbn; auto. Qed.
+Proof. rewrite (list_sum_const 0%nat l). lia. Qed.
 
 Lemma list_sum_add {A} (g h : A -> nat) l :
   list_sum (map (fun i => (g i + h i)%nat) l) = (list_sum (map g l) + list_sum (map h l))%nat.
@@ -656,15 +659,29 @@ Proof.
     - lia.
     - pose proof (fiber_fallthrough_one _ _ _ _ _ _ Hfib). lia. }
   rewrite <- Hsum. etransitivity; [apply list_sum_le; exact Hper|].
+  assert (Hplans : list_sum (map (fun i => List.length (c_plan (nth i cs d))) (seq 0 n))
+                   = List.length (concat (map c_plan cs))).
+  { rewrite <- (map_map (fun i => nth i cs d) (fun c => List.length (c_plan c))).
+    unfold n. now rewrite map_nth_seq, <- map_map, <- length_concat_sum. }
+  pose proof (NoDup_incl_len _ _ Hnd Hincl) as Hpl.
+  assert (Hk : forall c : nat, list_sum (map (fun _ : nat => c) (seq 0 n)) = (n * c)%nat).
+  { intros c. rewrite list_sum_const, seq_length. reflexivity. }
   unfold frame_bound. destruct p.
-  - rewrite list_sum_add. rewrite <- (map_map (fun i => nth i cs d) (fun c => List.length (c_plan c))).
-    unfold n. rewrite map_nth_seq, <- map_map, <- length_concat_sum.
-    pose proof (NoDup_incl_len _ _ Hnd Hincl).
-    assert (list_sum (map (fun _ : nat => same_target_budget PDefault) (seq 0 (List.length cs))) = (List.length cs * same_target_budget PDefault)%nat).
-    { clear. induction (seq 0 (List.length cs)) as [|a l IH] eqn:E in |- *; cbn. 
-      - generalize (seq_length (List.length cs) 0). intros Hs. destruct (List.length cs); [reflexivity|discriminate]. 
-      - admit. }
-    admit.
-  - admit.
-  - admit.
-Admitted.
+  - rewrite list_sum_add, Hplans, Hk. nia.
+  - rewrite list_sum_add, Hplans, Hk. nia.
+  - rewrite Hk. lia.
+Qed.
+
+(* the predicate the driver evaluates on rejected observations holds of every accepted one, gate
+   closed or open *)
+Lemma e2e_prop_frames p idem spec cl0 nodes down cs assign frs tret o co :
+  e2e_check p idem spec cl0 nodes down cs assign frs tret o co = true ->
+  prop_frames p idem spec (List.length nodes) frs = true.
+Proof.
+  intros H. destruct (gate_open idem spec) as [max|] eqn:Hg.
+  - pose proof (e2e_check_open _ _ _ _ _ _ _ _ _ _ _ _ _ H Hg) as Hm.
+    unfold prop_frames. rewrite Hg. apply orb_true_iff. right. apply Nat.leb_le.
+    eapply multi_bound; eassumption.
+  - destruct (e2e_check_closed _ _ _ _ _ _ _ _ _ _ _ _ H Hg) as [c [-> Hs]].
+    eapply single_prop_frames; eassumption.
+Qed.
